@@ -13,6 +13,18 @@ Oracle: models.repeat_model.RepeatMonitor, one per Repeat block, fed from pass-t
 on Block.event of the Repeat blocks and the probe (observed order is consumed, ties are legal
 both ways: "repetition, then the newer event" and "newer event, repetition pre-empted").
 
+Slow-initialisation stratum (a fifth of the random runs): a bystander InitAsync block with a
+scripted slow coroutine keeps the circuit in its asynchronous initialisation while events
+(legal as soon as is_ready() is true; wait_init() is awaited by a side task only) reach the
+Repeat blocks; the initialisation ends shortly after a predicted repetition, around an event,
+after the stop, or before the first event; optionally with persistent storage and a
+persistent Input that gets its value only in the second init pass. All clauses stay in force
+in that window; outputs are checked again when the initialisation has completed; a stop
+during the initialisation must still leave no task, timer or delivery behind.
+(catches seeded C18-s10: early initialisation skipped at init step 1 -> output reset to 0
+after repetition N; C18-s11: get_state() failure escaping run_forever()'s clean-up -> no
+block stopped, Repeat keeps re-sending.)
+
 Genuine defects of the pinned tree found by this check (both confirmed, replays in known/,
 candidate repairs validated in a scratch copy; with both repairs applied the check is clean):
 
@@ -60,6 +72,7 @@ import copy
 
 from simkit import seams
 from simkit.runner import Run, PlanError, canon, gen_knobs
+from simkit.storage import SimStorage
 from models.repeat_model import RepeatMonitor, predict
 from checks import fsmlib
 
@@ -77,7 +90,12 @@ RULE = ("one run = chain of 1-2 Repeat blocks (explicit / implicit via Event(rep
         "Repeat, optionally bounced 0-2 loop iterations inside the instant; shutdown aimed the "
         "same way; loop knobs: half of the runs latency-free and zero-cost (exact timing is "
         "demanded), the rest with drawn latency/cost (one-sided bounds); run indices below 1536 "
-        "walk topology x count x number of events systematically; non-trivial = at least one "
+        "walk topology x count x number of events systematically; a fifth of the other runs has "
+        "a bystander block with a slow asynchronous initialisation (ending shortly after a "
+        "predicted repetition / around an event / after the stop / before the first event) and "
+        "does not wait for wait_init(), 60 % of those with persistent storage and a persistent "
+        "Input that is initialised only in the second init pass / from saved state / never; "
+        "non-trivial = at least one "
         "repetition (repeat>=1) was observed, or a pending repetition was pre-empted by a newer "
         "event or by the stop; distinct = hash of the abstracted history (per delivery: block "
         "index, kind input/original/repetition, repeat number, event ordinal, same-instant flag)")
@@ -85,7 +103,9 @@ REACH_EXPECTED = ['tie_event_first', 'tie_repetition_first', 'same_instant_event
                   'count_reached', 'restart_numbering', 'unlimited_long', 'foreign_type',
                   'implicit_repeat', 'chain_repetition_forwarded', 'chain_direct_to_second',
                   'stop_with_pending_repetition', 'stop_at_repetition_instant', 'late_repetition',
-                  'bounced_event', 'string_interval', 'event_without_source']
+                  'bounced_event', 'string_interval', 'event_without_source',
+                  'event_during_slow_init', 'repetition_during_slow_init',
+                  'init_completed_after_repetition', 'stop_during_slow_init']
 ASSUMPTIONS = [
     "latency-free zero-cost stratum: a repetition is demanded exactly 'interval' after the "
     "previous (re-)send, compared with 1 microsecond tolerance (float rounding of loop.time())",
@@ -194,9 +214,26 @@ def gen(rng, tier, index=0):
         stop = max(t, rng.choice(cand) + rng.choice(OFFSETS_US))
     else:
         stop = t + rng.choice([0, 1_000, 300_000, max_iv, 4 * max_iv + 70_000, 9 * max_iv])
-    return {'knobs': knobs, 'etype': etype, 'chain': chain, 'ops': ops,
+    plan = {'knobs': knobs, 'etype': etype, 'chain': chain, 'ops': ops,
             'stop_at': round(stop / 1e6, 6), 'stop_hops': rng.choice([0, 0, 1, 2]),
             'drain': round(5 * max_iv / 1e6 + 1.0, 6)}
+    if index >= 1536 and rng.random() < 0.2:
+        # slow asynchronous initialisation of ANOTHER block: the events (legal as soon as
+        # is_ready() is true) reach the Repeat blocks before the circuit is initialised
+        reps = sorted({d for lst in predict(cfg, inputs, stop + 8 * max_iv) for d in lst})
+        r = rng.random()
+        if reps and r < 0.55:
+            dur = rng.choice(reps[:4]) + rng.choice([1_000, 50_000, max_iv // 2, max_iv // 4])
+        elif r < 0.75:
+            dur = rng.choice(ops)['t'] * 1e6 + rng.choice([-50_000, 0, 1, 70_000])
+        elif r < 0.9:
+            dur = stop + rng.choice([10_000, max_iv, 3 * max_iv])     # stop during the init
+        else:
+            dur = rng.choice([10_000, 60_000])                       # over before the first event
+        plan['slow_init'] = {'dur': round(max(dur, 1_000) / 1e6, 6),
+                             'persist': rng.random() < 0.6,
+                             'cfg': rng.choice(['initdef', 'initdef', 'saved'])}
+    return plan
 
 
 # --------------------------------------------------------------------------- execution
@@ -278,13 +315,36 @@ def build(run, plan):
             except Exception as err:
                 raise PlanError(f"Event: {err}") from None
     senders = {name: Sender(name, x_ports=ports) for name in ('sa', 'sb')}
+    slow = plan.get('slow_init')
+    if slow is not None:
+        if not isinstance(slow, dict) or not isinstance(slow.get('dur'), (int, float)) \
+                or isinstance(slow.get('dur'), bool) or slow['dur'] < 0:
+            raise PlanError('bad slow_init')
+        if any(float(op['t']) < 0.01 for op in plan['ops']) or float(plan['stop_at']) < 0.01:
+            raise PlanError('operation before the blocks were started')
+
+        async def slow_coro():
+            await asyncio.sleep(float(slow['dur']))
+            run.log('slow-init-done')
+            return 'S'
+        try:
+            edzed.InitAsync('slow', init_coro=[slow_coro], init_timeout=float(slow['dur']) + 100.0)
+            if slow.get('persist'):
+                cfg_mode = slow.get('cfg', 'initdef')
+                storage = SimStorage({"<Input 'cfg'>": 7} if cfg_mode == 'saved' else None)
+                edzed.get_circuit().set_persistent_data(storage)
+                # no saved state: gets its value only in the second (post-async) init pass
+                edzed.Input('cfg', persistent=True, initdef=0)
+        except Exception as err:
+            raise PlanError(f"slow init blocks: {type(err).__name__}: {err}") from None
     return probe, blocks, monitors, senders, exact
 
 
 def execute(plan, trace=False):
     run = Run(plan['knobs'])
     st = {'stopping': False, 'stopped': False, 'init': True, 'op': None, 'dead': False,
-          'nontrivial': False}
+          'nontrivial': False, 'init_done': False}
+    slow = plan.get('slow_init')
     try:
         probe, blocks, monitors, senders, exact = build(run, plan)
         etype = plan['etype']
@@ -341,11 +401,19 @@ def execute(plan, trace=False):
                     run.beh(up.idx, kind, canon(data.get('repeat')), seq0)
                     if kind == 'rep':
                         st['nontrivial'] = True
+                        if not st['init_done']:
+                            up.rep_in_window = True
+                            run.fired('reach:repetition_during_slow_init')
                         if mine is not None:
                             run.fired('reach:chain_repetition_forwarded')
                     flush(up)
             if mine is not None:
                 mine.depth += 1
+                mine.touched = True
+                if not st['init_done']:
+                    run.fired('reach:event_during_slow_init')
+                    if ev_type == etype:
+                        mine.in_window = True
                 if mine.idx == 1 and up is not None and up.depth == 0 and st['op'] is not None:
                     run.fired('reach:chain_direct_to_second')
                 run.log('in', mine.idx, canon(ev_type), canon(data))
@@ -359,6 +427,9 @@ def execute(plan, trace=False):
 
         def check_outputs(where):
             for mon in monitors:
+                if not st['init_done'] and not getattr(mon, 'touched', False):
+                    continue    # not initialised yet: gets its output with the first event
+                                # or in the second initialisation pass
                 out = mon.blk.output
                 want = mon.expected_output()
                 if out != want or isinstance(out, bool):
@@ -413,14 +484,31 @@ def execute(plan, trace=False):
 
         async def main():
             simtask = asyncio.create_task(circuit.run_forever())
-            try:
-                await circuit.wait_init()
-            except edzed.EdzedInvalidState as err:
-                run.violate('C18/start-failed', f"circuit did not start: {canon(err)}")
-                st['dead'] = True
+
+            async def initialised():
+                try:
+                    await circuit.wait_init()
+                except edzed.EdzedInvalidState as err:
+                    if st['stopping']:
+                        run.log('stopped-during-init')
+                        run.fired('reach:stop_during_slow_init')
+                        return
+                    run.violate('C18/start-failed', f"circuit did not start: {canon(err)}")
+                    st['dead'] = True
+                    return
+                st['init_done'] = True
+                run.log('initialised')
+                if not st['dead']:
+                    if any(getattr(m, 'rep_in_window', False) for m in monitors):
+                        run.fired('reach:init_completed_after_repetition')
+                    check_outputs('after the start' if slow is None else
+                                  'after the initialisation completed')
+            if slow is None:
+                await initialised()
+            else:
+                # events are legal as soon as is_ready() is true: do not wait
+                waiter = asyncio.create_task(initialised())
             st['init'] = False
-            if not st['dead']:
-                check_outputs('after the start')
             for op in plan['ops']:
                 run.at(float(op['t']), bounce, int(op.get('hops', 0)), do_op, op)
             fut = loop.create_future()
@@ -449,6 +537,8 @@ def execute(plan, trace=False):
                 await circuit.shutdown()
             except Exception as exc:    # pylint: disable=broad-except
                 err = exc
+            if slow is not None:
+                await waiter
             st['stopped'] = True
             run.log('stopped', err)
             if err is not None and not st['dead'] and not run.violations:
